@@ -4,6 +4,7 @@ import (
 	"fmt"
 	"strings"
 	"testing"
+	"time"
 
 	"pgregory.net/rapid"
 
@@ -115,13 +116,19 @@ func (c *listCase) compare(gids []glyph.ID) error {
 		return nil
 	}
 	var got []glyph.Info
-	pn := guard.Try(func() {
-		// one Context serves all sequences of a lookup list (Contexts are
-		// documented as reusable); every result must still equal the model
-		if c.ctx == nil {
-			c.ctx = gtab.NewContext(c.res.List, c.env.Gdef, c.order)
-		}
-		got = append([]glyph.Info(nil), c.ctx.Apply(in)...)
+	var pn *guard.Panic
+	// termination is part of "equals the reference": a call that does not
+	// return within the (generous) limit ends the process with the hang
+	// marker, and the driver re-runs the generation sequence before reporting
+	guard.Watch("c06-apply", []byte(fmt.Sprint(gids)), 60*time.Second, func() {
+		pn = guard.Try(func() {
+			// one Context serves all sequences of a lookup list (Contexts are
+			// documented as reusable); every result must still equal the model
+			if c.ctx == nil {
+				c.ctx = gtab.NewContext(c.res.List, c.env.Gdef, c.order)
+			}
+			got = append([]glyph.Info(nil), c.ctx.Apply(in)...)
+		})
 	})
 	if pn != nil {
 		return fmt.Errorf("Apply panicked on %v: %s", gids, pn)
